@@ -78,7 +78,12 @@ async def search() -> dict:
 
 
 def main() -> int:
-    r = asyncio.run(search())
+    try:
+        r = asyncio.run(search())
+    except Exception as e:  # noqa: BLE001 - the adapter under test failing in a way no scenario expects is itself an observable outcome
+        import traceback
+        r = {"reproduced": True, "violation": {"unexpected_exception": f"{type(e).__name__}: {e}", "where": traceback.format_exc().strip().splitlines()[-4:]},
+             "rule": "the adapter must deliver the bytes / datagrams or report a connection error - nothing else may escape a receive"}
     print(json.dumps(r))
     return 1 if ("--replay" in sys.argv and r.get("reproduced")) else 0
 
